@@ -368,7 +368,8 @@ def _same_text(x, y, rel):
     nx, ny = _NUM_IN_TEXT.findall(x), _NUM_IN_TEXT.findall(y)
     for u, v in zip(nx, ny):
         fu, fv = float(u), float(v)
-        if fu != fv and abs(fu - fv) > max(rel, 1e-12) * max(abs(fu), abs(fv)):
+        tol = 1e-13 if u.isdigit() else max(rel, 1e-12)      # long integers: only the last bits of a double
+        if fu != fv and abs(fu - fv) > tol * max(abs(fu), abs(fv)):
             return False
     return True
 
